@@ -11,6 +11,9 @@ use std::io::Write;
 use std::process::{Command, Stdio};
 
 const STUB: &str = r#"
+# readline is not active in a non-interactive shell: `bind -v` (used only to read
+# completion-ignore-case) is stubbed out
+bind () { :; }
 _get_comp_words_by_ref () {
     while [[ $# -gt 0 ]]; do
         case $1 in
